@@ -39,6 +39,8 @@ class LineFirmware:
         self.requests.append((len(self.wire), self.last + 1))
         if self.dialect == "C":          # Sprinter / Teacup style: a bare 'rs N<n>' line, nothing else
             return [f"rs N{self.last + 1}"]
+        if self.dialect == "D":          # Repetier wording: no blank before the number; followed by ok
+            return [f"Error:{why}", f"Resend:{self.last + 1}", "ok"]
         out = [f"Error:{why}, Last Line: {self.last}", f"Resend: {self.last + 1}"]
         if self.dialect == "A":
             out.append("ok")
